@@ -32,7 +32,7 @@ ASSUMPTIONS = ["known findings are keyed by (phase, exception type, raising "
                "place is reported as new",
                "step budget: 3000 + 150 * len(frame) executed lines in "
                "pox.lib.packet per parse+print+pack"]
-REQUIRED = ["frames", "unparsed_layers_compared_with_their_region", "parsed_ok", "truncations", "corruptions", "structured",
+REQUIRED = ["frames", "shards_run_with_assertions_stripped", "unparsed_layers_compared_with_their_region", "parsed_ok", "truncations", "corruptions", "structured",
             "random_frames", "chains_walked", "reserialised", "printed",
             "budget_armed", "packet_in_events", "checksum_fixed_mutants", "igmp_checksum_fixed_mutants", "template_base_frames",
             "deeply_nested_frames", "frames_handled_with_debug_logging_on",
@@ -455,9 +455,16 @@ def random_frames (rng, n):
 def plan (tier, seed):
   n = len(corpus.build())
   if tier == "quick":
-    return [dict(base=i, rand=400) for i in range(n)] + [dict(base=-1, rand=0)] + \
+    # (every corpus frame's mutants twice: as is, and with assertions
+    #  stripped - a parser that guards itself with `assert` is unguarded
+    #  under `python -O`)
+    return [dict(base=i, rand=400, no_asserts=False) for i in range(n)] + \
+        [dict(base=i, rand=100, no_asserts=True, shard=i + 1) for i in range(n)] + \
+        [dict(base=-1, rand=0)] + \
         [dict(base=-2, rand=200, sub=i, per=1) for i in range(6)]
-  return [dict(base=i, rand=250000) for i in range(n)] + [dict(base=-1, rand=0)] + \
+  return [dict(base=i, rand=250000, no_asserts=False) for i in range(n)] + \
+      [dict(base=i, rand=60000, no_asserts=True, shard=i + 1) for i in range(n)] + \
+      [dict(base=-1, rand=0)] + \
       [dict(base=-2, rand=20000, sub=i, per=8) for i in range(24)]
 
 
